@@ -5,7 +5,11 @@
 (* index of what it included.  The intended filter identifies a            *)
 (* transaction by its content; G_ReplayByContent = FALSE models a filter   *)
 (* that identifies it by the hash of the raw bytes although several byte   *)
-(* strings decode to one content.                                          *)
+(* strings decode to one content.  An encoding is anything outside the     *)
+(* signed content that changes the bytes: protobuf field order, explicit   *)
+(* defaults, non-minimal varints, and the representation of the public key *)
+(* and of the signature in the Signature field ("altkey": the 0x04         *)
+(* prefixed form of an Ethereum key, a high-s signature, S + L).           *)
 (***************************************************************************)
 EXTENDS Integers, FiniteSets, TLC
 
